@@ -810,6 +810,51 @@ class AnnotateE2EStream(Stream):
         self.side.setdefault("plan:" + json.dumps(case, sort_keys=True), (pl, hyp))
         return "%s|%s" % (code, " ".join(k + p + ("=" + h if h is not None else "") for p, k, h in items))
 
+    def agree(self, case, impl_out, model_out):
+        if impl_out != model_out:
+            return False
+        key = json.dumps(case, sort_keys=True)
+        pl_hyp = self.side.get("plan:" + key)
+        if pl_hyp is None or key not in self.side:
+            return True
+        mplan, hyp = pl_hyp
+        truth = plan(case)
+        if mplan == "usage":
+            return isinstance(truth, tuple)
+        if isinstance(truth, tuple):
+            return False
+        steps = []
+        for item in (mplan.split(" ") if mplan else []):
+            pp, _, rest = item.partition(">")
+            t, _, st = rest.partition(":")
+            steps.append((dec(pp), dec(t) if t else None, st))
+        # (1) the model's reading of the invocation against the generator's ground truth: which paths are written, how many fail / are skipped
+        want_w = sorted(t for _, t, s, _ in truth if s == "ok")
+        either = sorted(t for _, t, s, _ in truth if s == "either")
+        got_w = sorted(t for _, t, st in steps if st == "W")
+        if sorted(set(got_w) - set(either)) != want_w:
+            return False
+        if sum(1 for _, _, st in steps if st == "F") != sum(1 for _, _, s, _ in truth if s == "fail"):
+            return False
+        # (2) theorem-hypothesis tie: where the hypotheses of C11_e2e_failed_unchanged / C11_e2e_each_alone / C11_e2e_exit hold
+        #     (Separate, WfPath, no link at a written position) the implementation must show their conclusions
+        if hyp[:3] != "111":
+            return True
+        s0, s1, _reading, _binary = self.side[key]
+        code = int(impl_out.split("|")[0])
+        if code != (1 if any(st == "F" for _, _, st in steps) else 0):
+            return False
+        for pp, t, st in steps:
+            if st == "F":
+                for x in (pp, pp + ".license"):
+                    if (s0.get(x) or ())[:2] != (s1.get(x) or ())[:2]:
+                        return False
+            elif st == "W":
+                new = s1.get(t)
+                if new is None or new[0] != "file":
+                    return False
+        return True
+
     # -- oracle -----------------------------------------------------------------
     def oracle(self, case, impl_out):
         if impl_out.startswith("EXC"):
